@@ -39,16 +39,45 @@ def _need_actions(out, module, names):
             raise kit.ToolError("vacuity: action %s of %s never taken" % (n, module))
 
 
+def _profile_runs(ctx, pkg, stim_files, replay, workspace=None, keep_quick=400, keep_thorough=2500):
+    """kit.profile_runs: the debug AND the release build of a harness crate; the debug build runs everything, the
+    release build a replay as it is, the random stimuli in full and the TLC-enumerated ones thinned (quick: ~400
+    executions; here also in the thorough tier, to ~2500 -- judging a float-heavy trace costs 1-2 ms per channel step
+    and the debug build has judged every one of them already); C07's quick tier stays with debug.
+    harness_nostd is a workspace of its own, which the shared helper has no parameter for: same logic here for that one."""
+    if workspace is None:
+        runs = list(kit.profile_runs(ctx, pkg, stim_files, replay, keep_quick=keep_quick))
+    else:
+        bins = [("debug", ctx.cargo_build(pkg, workspace=workspace))]
+        if not getattr(ctx, "light", 0):
+            bins.append(("release", ctx.cargo_build(pkg, release=True, workspace=workspace)))
+        runs = []
+        for name, sf in stim_files:
+            for prof, b in bins:
+                f = sf
+                if prof == "release" and not replay and ctx.tier == "quick":
+                    f = kit.thin_stimuli(sf, keep_quick)
+                runs.append((name, prof, b, f))
+    for name, prof, b, f in runs:
+        if prof == "release" and not replay and ctx.tier != "quick" and name == "tlc":
+            f = kit.thin_stimuli(f, keep_thorough)
+        yield name, prof, b, f
+
+
 def _judge(ctx, runs, name, module, max_lines, jobs=8, comp_of=None):
-    """runs = [(binary, stimuli file, component label)].  Every run's trace is appended to ONE file that is
-    judged by a single ctx.validate call (pieces are cut at reset lines and spread over `jobs` JVMs, which
-    uses the cores far better than one validate per run)."""
+    """runs = [(binary, stimuli file, component label, build profile)].  Every run's trace is appended to ONE file
+    that is judged by a single ctx.validate call (pieces are cut at reset lines and spread over `jobs` JVMs, which
+    uses the cores far better than one validate per run).  Every header carries the profile of the binary that
+    wrote it (cfg.profile); every rejection gets r["profile"]."""
     alltr = os.path.join(ctx.work, "%s_trace.ndjson" % name)
     rej = []
     with open(alltr, "w") as out:
-        for k, (hx, stim, comp) in enumerate(runs):
+        for k, (hx, stim, comp, prof) in enumerate(runs):
             tr = os.path.join(ctx.work, "%s_%d.ndjson" % (name, k))
-            rej += ctx.run_stimuli(hx, stim, tr, comp)
+            crashed = ctx.run_stimuli(hx, stim, tr, comp)
+            for r in crashed:
+                r["profile"] = prof
+            rej += crashed
             with open(tr) as f:
                 shutil.copyfileobj(f, out)
             os.remove(tr)
@@ -58,6 +87,7 @@ def _judge(ctx, runs, name, module, max_lines, jobs=8, comp_of=None):
     for r in res["rejected"] + res["heap"]:
         if comp_of:
             r["comp"] = comp_of(r["exec"][0])
+        r["profile"] = r["exec"][0].get("cfg", {}).get("profile")
     return rej + res["rejected"], res["heap"]
 
 
@@ -69,7 +99,7 @@ def rms_pipeline(ctx, replay=None):
     """C11; returns (functional rejections, heap rejections)."""
     tier = ctx.tier
     hx_std = ctx.cargo_build("hx_dsp1")
-    hx_ns = ctx.cargo_build("hx_rms_nostd", workspace=kit.HARNESS_NOSTD)
+    ctx.cargo_build("hx_rms_nostd", workspace=kit.HARNESS_NOSTD)
     _nostd_configured()
     rej, heap = [], []
     if replay:
@@ -77,17 +107,20 @@ def rms_pipeline(ctx, replay=None):
         if first.get("comp") != "rms":
             raise kit.ToolError("not a C11 replay file (comp=%s)" % first.get("comp"))
         nostd = first.get("cfg", {}).get("build") == "no_std"
-        return _judge(ctx, [(hx_ns if nostd else hx_std, replay, "rms_nostd" if nostd else "rms")],
-                      "replay", "Trace_Rms", 4000, comp_of=_rms_comp)
+        pkg, ws, comp = ("hx_rms_nostd", kit.HARNESS_NOSTD, "rms_nostd") if nostd else ("hx_dsp1", None, "rms")
+        runs = [(b, f, comp, prof) for _, prof, b, f in _profile_runs(ctx, pkg, [("replay", replay)], replay, workspace=ws)]
+        return _judge(ctx, runs, "replay", "Trace_Rms", 4000, comp_of=_rms_comp)
     stim = os.path.join(ctx.work, "rms_stim.ndjson")
     out = ctx.mc("MC_Rms", "MC_Rms_%s.cfg" % tier, workers=4, env={"STIM_OUT": stim})
-    _need_actions(out, "MC_Rms", ["StepNext", "StepNextSq", "StepSig", "StepSigSq", "StepCurrent", "StepReset", "StepClone"])
+    _need_actions(out, "MC_Rms", ["StepNext", "StepNextSq", "StepSig", "StepSigSq", "StepCurrent", "StepReset", "StepClone", "StepFmt"])
     ctx.exhaustive = True
     ctx.extra["mc_constants"] = {"MaxWin": 3 if tier == "quick" else 4, "inputs": "k/4, k in -2..2", "channels": 1,
                                  "CloneFuel": "2 steps over both instances after a clone (inputs -1/4, 2/4)"}
     rnd = os.path.join(ctx.work, "rms_rand.ndjson")
     ctx.harness(hx_std, ["gen", str(ctx.seed), tier, rnd, "rms"])
-    runs = [(hx_std, stim, "rms"), (hx_std, rnd, "rms"), (hx_ns, stim, "rms_nostd"), (hx_ns, rnd, "rms_nostd")]
+    files = [("tlc", stim), ("random", rnd)]
+    runs = [(b, f, "rms", prof) for _, prof, b, f in _profile_runs(ctx, "hx_dsp1", files, None)]
+    runs += [(b, f, "rms_nostd", prof) for _, prof, b, f in _profile_runs(ctx, "hx_rms_nostd", files, None, workspace=kit.HARNESS_NOSTD)]
     return _judge(ctx, runs, "rms", "Trace_Rms", 2500, comp_of=_rms_comp)
 
 
@@ -99,16 +132,18 @@ def env_pipeline(ctx, replay=None):
         first = _first_event(replay)
         if first.get("comp") not in ("env", "rect"):
             raise kit.ToolError("not a C19 replay file (comp=%s)" % first.get("comp"))
-        return _judge(ctx, [(hx, replay, "envelope")], "replay", "Trace_Envelope", 4000)
+        runs = [(b, f, "envelope", prof) for _, prof, b, f in _profile_runs(ctx, "hx_dsp1", [("replay", replay)], replay)]
+        return _judge(ctx, runs, "replay", "Trace_Envelope", 4000)
     stim = os.path.join(ctx.work, "env_stim.ndjson")
     out = ctx.mc("MC_Envelope", "MC_Envelope_%s.cfg" % tier, workers=4, env={"STIM_OUT": stim})
-    _need_actions(out, "MC_Envelope", ["StepIn", "StepSetA", "StepSetR", "StepClone"])
+    _need_actions(out, "MC_Envelope", ["StepIn", "StepSetA", "StepSetR", "StepClone", "StepFmt"])
     ctx.exhaustive = True
     ctx.extra["mc_constants"] = {"MaxLen": 3 if tier == "quick" else 4, "StimLen": 2 if tier == "quick" else 3, "CloneLen": 3,
                                  "gains": "0, 1/2, 3/4", "inputs": "k/4, k in -2..2, three rectifiers"}
     rnd = os.path.join(ctx.work, "env_rand.ndjson")
     ctx.harness(hx, ["gen", str(ctx.seed), tier, rnd, "env"])
-    return _judge(ctx, [(hx, stim, "envelope"), (hx, rnd, "envelope")], "env", "Trace_Envelope", 2000)
+    runs = [(b, f, "envelope", prof) for _, prof, b, f in _profile_runs(ctx, "hx_dsp1", [("tlc", stim), ("random", rnd)], None)]
+    return _judge(ctx, runs, "env", "Trace_Envelope", 2000)
 
 
 def _breakdown(ctx, rej):
@@ -116,8 +151,8 @@ def _breakdown(ctx, rej):
     by = {}
     for r in rej:
         cfg = r["exec"][0].get("cfg", {}) if r.get("exec") else {}
-        k = "%s fmt=%s %s ev=%s" % (r["comp"], cfg.get("fmt"), cfg.get("build") or cfg.get("det") or "-",
-                                    r["event"].get("ev"))
+        k = "%s fmt=%s %s %s ev=%s" % (r["comp"], cfg.get("fmt"), cfg.get("build") or cfg.get("det") or "-",
+                                       r.get("profile") or "-", r["event"].get("ev"))
         by[k] = by.get(k, 0) + 1
     ctx.extra["rejections_by_configuration"] = by
     for k in sorted(by):
@@ -126,7 +161,16 @@ def _breakdown(ctx, rej):
 
 def c11(ctx, replay):
     ctx.assumptions += [
-        "inputs are finite with |x| <= 2^20 (squares and window sums finite: the property presupposes a real RMS)",
+        "inputs are finite and N*x^2 stays two binary orders below the largest finite value of the float the detector computes "
+        "in (|x| < 2^E with 2E + bitlen(N) + 1 <= bias: for N <= 64 |x| < 2^59 in f32, < 2^507 in f64) -- beyond that the squares or "
+        "their window sum overflow and there is no real RMS; no lower end: subnormal inputs, subnormal and vanishing squares are judged",
+        "value regions: TLC histories placed at 2^sc (f64: sc 508 .. -540, f32: 61 .. -73, incl. mean squares around f32::MAX and the "
+        "smallest f32 subnormal for f64 frames) and random full-mantissa executions in 18 regions of the two formats, std and no_std",
+        "no_std square root: 7% relative plus an absolute term of 8*sqrt(smallest normal) of the format the root is taken in "
+        "(2^-60 for f32, 2^-508 for f64)",
+        "both build profiles (debug, release) of hx_dsp1 and hx_rms_nostd are executed and judged by the same clauses (release: "
+        "random histories in full, enumerated ones thinned to ~400 (quick) / ~2500 (thorough)); the header carries the profile",
+        "Debug rendering (rms_fmt) of the bare detector into a heap-free sink is an operation: Ok, no-op on the state, heap silent",
         "window lengths 1..3 (quick) / 1..4 (thorough) exhaustively on the exact domain k/4; random histories of 50*N "
         "frames for N up to 64, 1-4 channels, formats f32 f64 i8 i16 i32 u16, full-precision and exact-domain values",
         "the floating point bound is rigorous for running-sum (either order, with or without the clamp) and for "
@@ -159,6 +203,10 @@ def c19(ctx, replay):
         "constructor entry points Detector::peak* / ::rms, Detector::new(Peak::*() / Peak::from(rectifier) / Rms::new(..)), "
         "::peak_from_rectifier; RMS detection over Vec and Box<[T]> ring storage; rectifiers as free functions and as Rectifier impls",
         "a zero time is handed over as +0.0 or as IEEE -0.0 (flags nza/nzr/nz); both are the time 0 to the model",
+        "both build profiles (debug, release) of hx_dsp1 are executed and judged by the same clauses (release: random runs in full, "
+        "enumerated ones thinned to ~400 (quick) / ~2500 (thorough)); the header carries the profile",
+        "Debug rendering (env_fmt) of a bare Detector (peak and RMS detection) into a heap-free sink is an operation: Ok, no-op on "
+        "the state, heap silent; DetectEnvelope and the signal::rms adaptor implement no Debug",
         "adaptor runs over a finite source read past its end (cfg.srclen): the later inputs are the equilibrium frames "
         "such a signal yields (that it does is C04/C05's matter); the recurrence is required to keep running on them",
     ]
